@@ -262,6 +262,18 @@ def body_exits(stmts, ename, mod, local_fns, depth=0):
                         fail(st, "statements after `if check_input:` may raise", mod)
                     return out
                 fail(st, "`if check_input:` is not {warn ...} else {raise e}", mod)
+            if isinstance(st.test, ast.UnaryOp) and isinstance(st.test.op, ast.Not) \
+                    and isinstance(st.test.operand, ast.Name) and st.test.operand.id == "check_input":
+                # `if not check_input: raise e` followed by (or else:) the warning
+                t = body_exits(st.body, ename, mod, local_fns, depth + 1)
+                rest_stmts = st.orelse if st.orelse else stmts[i + 1:]
+                e = body_exits(rest_stmts, ename, mod, local_fns, depth + 1)
+                if t == {"reraise"} and e == {"fall"} and any(is_warn_call(x) for x in rest_stmts):
+                    if st.orelse and body_exits(stmts[i + 1:], ename, mod, local_fns, depth + 1) != {"fall"}:
+                        fail(st, "statements after `if not check_input:` may raise", mod)
+                    out.add("checkwarn")
+                    return out
+                fail(st, "`if not check_input:` is not {raise e} else/then {warn ...}", mod)
             t = body_exits(st.body, ename, mod, local_fns, depth + 1)
             e = body_exits(st.orelse, ename, mod, local_fns, depth + 1) if st.orelse else {"fall"}
             both = t | e
